@@ -30,6 +30,7 @@ type c03state struct {
 	sk       map[[32]byte]bool
 	ik       map[[32]byte]string // plaintext hash -> "id|created" ("" while the row is not known yet)
 	ikCipher map[[32]byte][32]byte // ciphertext hash -> IK plaintext hash (wrap output)
+	ikCiphers map[[32]byte]map[[32]byte]bool // IK plaintext hash -> ciphertexts it was wrapped as / unwrapped from
 	bytes    map[[32]byte][]byte
 	random   map[[32]byte]string // CreateRandom secret hash -> op label it was created in
 	drkUsed  map[[32]byte]int
@@ -44,7 +45,7 @@ type c03state struct {
 }
 
 func newC03() *c03state {
-	return &c03state{bytes: map[[32]byte][]byte{}, sk: map[[32]byte]bool{}, ik: map[[32]byte]string{}, ikCipher: map[[32]byte][32]byte{}, random: map[[32]byte]string{}, drkUsed: map[[32]byte]int{}, nonces: map[[12]byte]int{}}
+	return &c03state{bytes: map[[32]byte][]byte{}, sk: map[[32]byte]bool{}, ik: map[[32]byte]string{}, ikCipher: map[[32]byte][32]byte{}, ikCiphers: map[[32]byte]map[[32]byte]bool{}, random: map[[32]byte]string{}, drkUsed: map[[32]byte]int{}, nonces: map[[12]byte]int{}}
 }
 
 // c03Advance consumes every monitor event since the previous call, maintains the key-role provenance and
@@ -83,6 +84,10 @@ func (h *hist) c03Advance(ctx *encCtx) {
 		}
 		if c.Op == 'D' {
 			if st.sk[c.Key] { // IK unwrapped with an SK
+				if st.ikCiphers[c.PlainFull] == nil {
+					st.ikCiphers[c.PlainFull] = map[[32]byte]bool{}
+				}
+				st.ikCiphers[c.PlainFull][c.Cipher] = true
 				if _, ok := st.ik[c.PlainFull]; !ok {
 					st.ik[c.PlainFull] = h.rowOfCipher(c.Cipher)
 					if b := h.bytesOf(c.PlainFull); b != nil {
@@ -113,6 +118,10 @@ func (h *hist) c03Advance(ctx *encCtx) {
 			} else {
 				st.ik[c.PlainFull] = "" // row learned below from the Store call
 				st.ikCipher[c.Cipher] = c.PlainFull
+				if st.ikCiphers[c.PlainFull] == nil {
+					st.ikCiphers[c.PlainFull] = map[[32]byte]bool{}
+				}
+				st.ikCiphers[c.PlainFull][c.Cipher] = true
 				if b := h.bytesOf(c.PlainFull); b != nil {
 					st.longKeys = append(st.longKeys, b)
 				}
@@ -126,6 +135,14 @@ func (h *hist) c03Advance(ctx *encCtx) {
 			want := fmt.Sprintf("%s|%d", h.ikID(ctx.s.part), ctx.drr.Key.ParentKeyMeta.Created)
 			if got := st.ik[c.Key]; got != "" && got != want {
 				h.violate("c03-drk-under-foreign-ik", "%s: data key wrapped under IK of row %s but the record names %s", ctx.label, got, want)
+			}
+			// the record names (IK id, created): that stored row must be a wrapping of the very key that wrapped the DRK
+			if row := h.w.Raw(ctx.drr.Key.ParentKeyMeta.ID, ctx.drr.Key.ParentKeyMeta.Created); row != nil {
+				if !st.ikCiphers[c.Key][sha256.Sum256(row.EncryptedKey)] {
+					h.violate("c03-drk-under-key-that-is-not-the-named-ik", "%s: the data key was wrapped under a key that is not the one stored in the row (%s,%d) the record names", ctx.label, ctx.drr.Key.ParentKeyMeta.ID, ctx.drr.Key.ParentKeyMeta.Created)
+				}
+			} else {
+				h.violate("c03-record-names-missing-ik-row", "%s: the record names IK row (%s,%d) which is not in the metastore", ctx.label, ctx.drr.Key.ParentKeyMeta.ID, ctx.drr.Key.ParentKeyMeta.Created)
 			}
 			if ctx.drr.Key.ParentKeyMeta.ID != h.ikID(ctx.s.part) {
 				h.violate("c03-record-names-foreign-ik", "%s: record for partition %q names IK id %q", ctx.label, ctx.s.part, ctx.drr.Key.ParentKeyMeta.ID)
